@@ -57,7 +57,20 @@ def drop_identity(j, var):
     return None
 
 
-def run_match(template, target, free, pre, note):
+def _all_names(j, out):
+    """Every name of an expression, function symbols included (own traversal)."""
+    if isinstance(j, list):
+        if len(j) == 2 and j[0] == "v" and isinstance(j[1], str):
+            out.add(j[1])
+        else:
+            for x in j:
+                _all_names(x, out)
+    return out
+
+
+def run_match(template, target, free, pre, note, bound=False):
+    """bound=True: the other way of saying the same thing -- free_variable_names=None and every other name of the
+    template (function symbols too) listed in bound_variable_names."""
     from dagrt.expression import match
     case = {"kind": "match", "template": template, "target": target, "free": list(free), "pre": pre, "sigma": [],
             "err": "", "note": note,
@@ -66,7 +79,11 @@ def run_match(template, target, free, pre, note):
         kw = {}
         if pre:
             kw["pre_match"] = {n: exprs.from_json(x) for n, x in pre}
-        res = match(exprs.from_json(template), exprs.from_json(target), list(free), **kw)
+        if bound:
+            res = match(exprs.from_json(template), exprs.from_json(target), None,
+                        bound_variable_names=sorted(_all_names(template, set()) - set(free)), **kw)
+        else:
+            res = match(exprs.from_json(template), exprs.from_json(target), list(free), **kw)
         case["sigma"] = [[n, exprs.to_json(x)] for n, x in sorted(res.items())]
     except Exception as e:
         case["err"] = type(e).__name__
@@ -88,6 +105,14 @@ def run(chk):
             cases.append(run_match(t, inst, tv, [], "instance"))
             cases.append(run_match(t, shuffle(inst, rng), tv, [], "shuffled instance"))
             cases.append(run_match(t, shuffle(inst, rng), tv + ["x"], [], "x free as well"))
+            # the same questions asked through bound_variable_names, on one template with different bound sets one
+            # after the other (larger free set first)
+            if "x" in exprs.variables(t):
+                inst_x = subst(t, dict(sigma, x=rng.choice(REPL)))
+                cases.append(run_match(t, inst_x, tv + ["x"], [], "bound form", bound=True))
+                cases.append(run_match(t, inst_x, tv, [], "bound form", bound=True))
+            cases.append(run_match(t, inst, tv, [], "bound form", bound=True))
+            cases.append(run_match(t, shuffle(inst, rng), tv[:1], [], "bound form", bound=True))
             v0 = tv[0]
             cases.append(run_match(t, inst, tv, [[v0, sigma[v0]]], "consistent pre-match"))
             cases.append(run_match(t, inst, tv, [[v0, ["v", "zz"]]], "contradicting pre-match"))
@@ -144,7 +169,7 @@ def run(chk):
 
 def replay(chk, rep):
     c0 = rep["case"]
-    c = run_match(c0["template"], c0["target"], c0["free"], c0["pre"], c0["note"])
+    c = run_match(c0["template"], c0["target"], c0["free"], c0["pre"], c0["note"], bound=(c0["note"] == "bound form"))
     print("match(%s, %s, free=%s, pre=%s) -> %s" % (exprs.show(c["template"]), exprs.show(c["target"]), c["free"], c["pre"],
                                                     c["err"] or [(n, exprs.show(x)) for n, x in c["sigma"]]))
     tl = {k: c[k] for k in ("kind", "template", "target", "free", "pre", "sigma", "err", "vars")}
